@@ -258,7 +258,13 @@ def sym_div(a, b):
         if fa == 0:
             return float("nan")
         return float("inf") if fa > 0 else float("-inf")
-    return mk_real(rv(a) / rv(b))
+    ta, tb = rv(a), rv(b)
+    # cancel a common rational factor ((2A)/(2B) -> A/B): keeps uniformly
+    # scaled computations syntactically equal to the unscaled ones
+    ka, kb = _content(ta), _content(tb)
+    if ka != 1 and ka == kb:
+        ta, tb = _strip_content(ta, ka), _strip_content(tb, kb)
+    return mk_real(ta / tb)
 
 
 def _cmp(a, b, op):
@@ -485,13 +491,39 @@ def _dispatch(a, b, op):
 
 def _factor(t):
     """(k, X) with t == k*X for a rational numeral k != 0, else (1, t)."""
-    if z3.is_app(t) and t.decl().kind() == z3.Z3_OP_MUL and t.num_args() == 2 \
-            and z3.is_rational_value(t.arg(0)) and not z3.is_rational_value(t.arg(1)):
-        k = t.arg(0)
-        fr = Fraction(k.numerator_as_long(), k.denominator_as_long())
-        if fr != 0:
-            return fr, t.arg(1)
+    if z3.is_app(t) and t.decl().kind() == z3.Z3_OP_MUL and t.num_args() >= 2 \
+            and z3.is_rational_value(t.arg(0)):
+        rest = [t.arg(i) for i in range(1, t.num_args())]
+        if not any(z3.is_rational_value(r) for r in rest):
+            k = t.arg(0)
+            fr = Fraction(k.numerator_as_long(), k.denominator_as_long())
+            if fr != 0:
+                x = rest[0]
+                for r in rest[1:]:
+                    x = x * r
+                return fr, x
     return Fraction(1), t
+
+
+def _content(t):
+    """Positive rational k with t == k * _strip_content(t, k).  Only the
+    syntactic cases produced by uniform scaling are recognised (a product
+    with a numeral, or a sum whose terms all carry the same |numeral|)."""
+    if z3.is_app(t) and t.decl().kind() == z3.Z3_OP_ADD:
+        ks = [abs(_factor(c)[0]) for c in t.children()]
+        if ks and all(k == ks[0] for k in ks) and ks[0] != 1:
+            return ks[0]
+        return Fraction(1)
+    return abs(_factor(t)[0])
+
+
+def _strip_content(t, k):
+    def one(c):
+        kc, x = _factor(c)
+        return x if kc > 0 else -x
+    if z3.is_app(t) and t.decl().kind() == z3.Z3_OP_ADD:
+        return z3.Sum([one(c) for c in t.children()])
+    return one(t)
 
 
 def sym_ite(c, a, b):
@@ -537,9 +569,10 @@ def sym_abs(x):
         return mk_int(z3.If(x.t >= 0, x.t, -x.t))
     if isinstance(x, SymBool):
         return mk_int(iv(x))
-    k, rest = _factor(x.t)
+    k = _content(x.t)
     if k != 1:
-        return mk_real(z3.RealVal(str(abs(k))) * z3.If(rest >= 0, rest, -rest))
+        rest = _simp(_strip_content(x.t, k))
+        return mk_real(z3.RealVal(str(k)) * z3.If(rest >= 0, rest, -rest))
     return mk_real(z3.If(x.t >= 0, x.t, -x.t))
 
 
